@@ -8,12 +8,14 @@ copied from the source file, or produced by a logged rewrite (`//@rw <rule> ...`
 
 Directives (one per line, payload = following non-directive lines):
   //@src <path relative to repo>
-  //@include <other.vrs>
+  //@include <other.vrs> [assume|opaque]  assume: bodies external_body, contracts kept (proved in another unit);
+                                        opaque: bodies external_body, contracts dropped (callers learn nothing, totality assumed)
   //@rwall <rule> `from` => `to`          rewrite applied to every item emitted afterwards (any count)
   //@item <kind> <name> [pubfields]       emit a whole item (struct/enum/const/type/fn/impl header text for impl)
   //@impl <normalized impl header>[ #n]   open an impl block; assoc types/consts are emitted automatically
   //@fn <name> [-> <ret>] [#n]            emit a fn (member of the open impl, or a free fn of the file)
   //@rw <rule> <count> `from` => `to`     rewrite inside the current fn/item (exactly <count> matches; `*` = every match, at least one)
+  //@opaque                               this fn is opaque in this unit (signature only; body dropped, D-body)
   //@attr                                 payload placed before the fn (e.g. #[verifier::external_body])
   //@sig                                  payload placed after the signature (requires/ensures/decreases)
   //@loop <n>                             payload placed after the header of the n-th loop of the fn
@@ -325,7 +327,8 @@ class Extractor:
             elif cmd == "include":
                 close_fn()
                 a2 = arg.split()
-                self.run_template(os.path.join(os.path.dirname(path), a2[0]), depth + 1, assume or (len(a2) > 1 and a2[1] == "assume"))
+                mode = assume or (a2[1] if len(a2) > 1 and a2[1] in ("assume", "opaque") else False)
+                self.run_template(os.path.join(os.path.dirname(path), a2[0]), depth + 1, mode)
             elif cmd == "rwall":
                 parts, rest = parse_backticks(arg)
                 rule = rest.split()[0]
@@ -448,6 +451,8 @@ class Extractor:
                         raise ExtractError("extract-error", f"{where}: //@rw outside fn")
                 else:
                     cur_fn["rws"].append((rule, count, parts[0], parts[1], where))
+            elif cmd == "opaque":
+                cur_fn["assume"] = "opaque"
             elif cmd in ("sig", "attr", "atend", "atstart"):
                 txt, i = payload(i)
                 cur_fn["ins"].append((cmd, None, 1, txt, where))
@@ -511,11 +516,25 @@ class Extractor:
         for o in f.get("opts", []):
             if o.startswith("keepderive="):
                 keepderive = tuple(o[len("keepderive="):].split(","))
-        self.apply_global_edits(reg, it.first, it.last, noderive, keepderive)
-        for (rule, frm, to) in self.rwall:
-            self.apply_rw(reg, it.first, it.last, rule, None, frm, to, f["where"])
-        for (rule, count, frm, to, where) in f["rws"]:
-            self.apply_rw(reg, it.first, it.last, rule, count, frm, to, where)
+        opaque = f.get("assume") == "opaque" and f["kind"] == "fn" and it.body_open >= 0
+        if opaque:
+            # opaque function: only the signature is used in this unit; the body is not part of what is verified or
+            # assumed here and is dropped (logged as D-body), so that it need not compile inside this unit
+            hdr_last = it.body_open - 1
+            self.apply_global_edits(reg, it.first, hdr_last, noderive, keepderive)
+            for (rule, frm, to) in self.rwall:
+                self.apply_rw(reg, it.first, hdr_last, rule, None, frm, to, f["where"])
+            for (rule, count, frm, to, where) in f["rws"]:
+                self.apply_rw(reg, it.first, hdr_last, rule, None, frm, to, where)
+            bs, be = toks[it.body_open].start, toks[it.last].end
+            reg.add(bs, be, "{ unimplemented!() }", "drop", "D-body")
+            self.log.append(dict(rule="D-body", file=sf.rel, line=sf.line_of(bs), before=f"body of {f['path']}", after="{ unimplemented!() }"))
+        else:
+            self.apply_global_edits(reg, it.first, it.last, noderive, keepderive)
+            for (rule, frm, to) in self.rwall:
+                self.apply_rw(reg, it.first, it.last, rule, None, frm, to, f["where"])
+            for (rule, count, frm, to, where) in f["rws"]:
+                self.apply_rw(reg, it.first, it.last, rule, count, frm, to, where)
         if f["kind"] == "item" and "pubfields" in f["opts"]:
             # the item itself becomes pub as well (D-vis)
             has_pub = any(toks[q].text == "pub" for q in range(first_tok, it.kw))
@@ -612,7 +631,12 @@ class Extractor:
                 reg.add(toks[arrow + 1].start, toks[arrow + 1].start, f"({f['ret']}: ", "ins", "ret-name")
                 reg.add(toks[e - 1].end, toks[e - 1].end, ")", "ins", "ret-name")
         loops = None
-        if f.get("assume") and not any(k == "attr" and "external_body" in t for (k, _, _, t, _) in f["ins"]):
+        if f.get("assume") == "opaque" and f["kind"] == "fn":
+            # only the signature is kept: callers learn nothing about the result and assume the call returns
+            f["ins"] = [("attr", None, 1, "#[verifier::external_body] /* opaque here: no contract, totality assumed */\n", f["where"])] + \
+                       [x for x in f["ins"] if (x[0] == "attr" and "external_body" not in x[3])]
+            f["assumed_elsewhere"] = True
+        elif f.get("assume") and not any(k == "attr" and "external_body" in t for (k, _, _, t, _) in f["ins"]):
             # contract assumed in this unit (proved in the unit that includes the same template without `assume`)
             f["ins"] = [("attr", None, 1, "#[verifier::external_body] /* assumed here, proved in another unit */\n", f["where"])] + \
                        [x for x in f["ins"] if x[0] in ("attr", "sig", "atstart")]
